@@ -450,6 +450,99 @@ func stripData(s string) string {
 	return s
 }
 
+// c09Reissue: callback A's context ends before the peer answers; only then callback B is issued;
+// the peer answers A late, and before it answers B. B must get its own reply.
+func c09Reissue(thenStop bool, b Bounds) *Scenario {
+	name := "reissue: callback A times out, callback B issued afterwards, late reply to A arrives before the reply to B"
+	return &Scenario{
+		Name:   name,
+		Params: map[string]any{"history": []string{"Callback A", "cancel A", "A returns", "Callback B", "late reply to A", "reply to B"}},
+		Bounds: b,
+		New: func() *Instance {
+			body := func() {
+				lib, peer, _ := NewPipe(PipeOpts{Name: "srv", CloseUnblocksRecv: true})
+				srv := jrpc2.NewServer(anyAssigner{func(context.Context, *jrpc2.Request) (any, error) { return 1, nil }}, &jrpc2.ServerOptions{AllowPush: true})
+				srv.Start(lib)
+				ctxA, cancelA := context.WithCancel(context.Background())
+				var j Join
+				j.Go("caller", func() {
+					for k, ctx := range []context.Context{ctxA, context.Background()} {
+						vs.Event("call", "Callback", fmt.Sprint(k))
+						rsp, err := srv.Callback(ctx, fmt.Sprintf("cb%d", k), nil)
+						vs.Yield("ret")
+						if err != nil {
+							vs.Note("ret", "Callback", fmt.Sprint(k), "err", err.Error())
+						} else {
+							vs.Note("ret", "Callback", fmt.Sprint(k), "ok", rsp.ID(), rsp.ResultString())
+						}
+					}
+				})
+				j.Go("cancel", func() { vs.Event("env", "cancel", "0"); cancelA() })
+				vs.GoNamed("peer", func() {
+					ids := map[string]string{}
+					for len(ids) < 2 {
+						rec, ok := peer.Recv()
+						if !ok {
+							return
+						}
+						ms, _, _ := parseRecord(rec)
+						for _, m := range ms {
+							if m.Has("method") && m.Has("id") {
+								var meth string
+								fmt.Sscanf(m.Str("method"), "%q", &meth)
+								ids[meth] = m.ID()
+								vs.Note("peer-saw", meth, m.ID())
+							}
+						}
+					}
+					for _, meth := range []string{"cb0", "cb1"} {
+						s := fmt.Sprintf(`{"jsonrpc":"2.0","id":%s,"result":"r:%s:%s"}`, ids[meth], meth, ids[meth])
+						if peer.Send([]byte(s)) {
+							vs.Note("peer-sent", s)
+						}
+					}
+					vs.AwaitQuiescence()
+					peer.Close()
+				})
+				j.Wait()
+				srv.WaitStatus()
+			}
+			check := func(x *vs.Exec) []Viol {
+				v := genericRules(x, nil)
+				if x.Outcome != "ok" {
+					return v
+				}
+				r0, r1 := findEv(x, 0, "ret", "Callback", "0"), findEv(x, 0, "ret", "Callback", "1")
+				if r0 < 0 || r1 < 0 {
+					return append(v, Viol{"C09.R4", "a Callback did not return"})
+				}
+				Hit("C09.R5")
+				e := x.Log[r1]
+				idB := ""
+				for _, ev := range x.Log {
+					if ev.K == "peer-saw" && ev.Arg(0) == "cb1" {
+						idB = ev.Arg(1)
+					}
+				}
+				if e.Arg(2) != "ok" || e.Arg(4) != fmt.Sprintf(`"r:cb1:%s"`, idB) {
+					v = append(v, Viol{"C09.R5", fmt.Sprintf("callback B (id %s) returned %s %s %s: a late reply to an earlier callback must complete nothing", idB, e.Arg(2), e.Arg(3), e.Arg(4))})
+				}
+				for _, o := range outEvents(x, "srv") {
+					ms, _, _ := parseRecord([]byte(o.Raw))
+					for _, m := range ms {
+						if !m.Has("method") {
+							Hit("C09.R6")
+							v = append(v, Viol{"C09.R6", "the server answered a late reply with " + stripData(string(m.Raw))})
+						}
+					}
+				}
+				return v
+			}
+			return &Instance{Body: body, Check: check}
+		},
+	}
+}
+
 func c09Scenarios(tier string) []*Scenario {
 	var out []*Scenario
 	add := func(p c09P, b Bounds) { out = append(out, c09Scenario(p, b)) }
@@ -477,6 +570,7 @@ func c09Scenarios(tier string) []*Scenario {
 	add(c09P{Push: true, N: 0, Script: "none", NoteWaits: true, Stop: true}, b2)
 	add(c09P{Push: true, N: 0, Script: "none", HandlerCB: true, Stop: true}, b2)
 	add(c09P{Push: true, N: 1, Script: "inorder", Notify: true}, b2)
+	out = append(out, c09Reissue(false, b1))
 	add(c09P{Push: true, N: 0, Script: "none", Notify: true, AfterStop: true}, b1)
 	add(c09P{Push: false, N: 1, Script: "none", Notify: true, AfterStop: true}, b1)
 	if !q {
